@@ -283,6 +283,10 @@ func waitAllUpdatedAndReady(deployment *apps.Deployment) error {
 	}
 
 	// ALL pods updated AND ready
+	if deployment.Status.Replicas != deployment.Status.UpdatedReplicas {
+		// (ready == updated alone is also true for "one old pod still ready, one updated pod not yet ready")
+		return fmt.Errorf("all replicas should be updated")
+	}
 	if deployment.Status.ReadyReplicas != deployment.Status.UpdatedReplicas {
 		return fmt.Errorf("all ready replicas should be updated, and all updated replicas should be ready")
 	}
